@@ -206,7 +206,9 @@ def ref_layer(d, prev):
         memo = {}
 
         def tk(values):
-            return values[0] if len(values) == 1 else to_hash_id(values)
+            # `to_key=`: the default, or (key_prefix) a custom injective function of the tuple of key values
+            base = values[0] if len(values) == 1 else to_hash_id(values)
+            return d['key_prefix'] + base if d.get('key_prefix') else base
 
         def side_keys(ds):
             seen, out = {}, {}
@@ -315,7 +317,7 @@ def gen_pred(rng, fields, counter):
     fields = [f for f in fields if f == 'id' or f.startswith('k')] or ['id']     # string-valued fields
     args = rng.sample(fields, min(len(fields), rng.choice([1, 1, 2, 2])))
     counter[0] += 1
-    return {'k': 'filter', 'f': f'pred{counter[0]}', 'args': args, 'mode': rng.choice(['hash', 'hash', 'true', 'false'])}
+    return {'k': 'filter', 'f': f'pred{counter[0]}', 'args': args, 'mode': rng.choice(['hash', 'hash', 'true', 'false', 'values', 'values'])}
 
 
 def finish_pred(p, prev_ref):
@@ -335,6 +337,10 @@ def finish_pred(p, prev_ref):
             r = True
         elif p['mode'] == 'false':
             r = False
+        elif p['mode'] == 'values':
+            # verdicts that are not bools: kept iff truthy (an empty tuple is falsy, a tuple holding falsy items is truthy)
+            zoo = [True, False, 0, 1, 2, '', 'x', None, [], [0], [0, 1], [1], [''], [None], [[]]]
+            r = zoo[int(hashlib.sha1((p['f'] + key).encode()).hexdigest(), 16) % len(zoo)]
         else:
             r = int(hashlib.sha1((p['f'] + key).encode()).hexdigest(), 16) % 3 != 0
         from .codec import val_to_json
@@ -378,7 +384,8 @@ def gen_rel(rng, kind=None, depth=0, counter=None):
         counter[0] += 1
         tf = {}
         for f in rng.sample(fields, min(len(fields), rng.choice([1, 2]))):
-            tf[f] = {'args': [f, '__part__']}
+            # a field of the transform may read `id`: it is the id of the OLD entry (an ordinary field of the previous layer)
+            tf[f] = {'args': rng.choice([[f, '__part__'], [f, '__part__'], [f, 'id', '__part__'], ['id', f]])}
         d = {'k': 'split', 'cls': f'Sp{counter[0]}', 'split': {'args': sargs, 'table': table}, 'fields': tf, 'params': {},
              'cargs': {}, 'defaults': {}}
         r = rng.random()
